@@ -149,6 +149,10 @@ def run(ctx, model=None):
     for k in range(12 if ctx.quick() else 200):
         check_case(ctx, gen.tiny_reach_game(rng), model)
         check_case(ctx, gen.parallel_dead_game(rng), model)
+    for k in range(20 if ctx.quick() else 300):
+        check_case(ctx, gen.with_huge_rewards(gen.layered_tie_game(rng)), model)
+        check_case(ctx, gen.with_empty_action(gen.layered_tie_game(rng), rng), model)
+        check_case(ctx, gen.integer_game(rng), None)
     N = 200 if ctx.quick() else 5000
     for k in range(N):
         r = k % 5
